@@ -135,7 +135,7 @@ def _hashed(name):
 
 
 HOSTFIELDS = ['h', 'g', 'h,g', '*', '!h,*', 'h*', '[h]:2222', '[*]:2222', '10.0.0.0/8', '!10.0.0.0/8,*',
-              _hashed('h'), _hashed('[h]:2222'), '10.0.0.1', '?']
+              _hashed('h'), _hashed('[h]:2222'), '10.0.0.1', '?', 'h,!10.0.0.1', 'g,!h,h']
 MARKERS = ['', '@cert-authority ', '@revoked ']
 KEYS = [K1, K2, 'BROKEN']
 
@@ -365,13 +365,13 @@ OBLIGATIONS = [
        functions=[P._PatternList.__init__, P._PatternList.matches],
        bounds='1..3 sub-patterns, each negated or not, each leaf verdict symbolic'),
     Ob('known_hosts', known_hosts,
-       sym=dict(m0=R(0, 2), f0=R(0, 13), k0=R(0, 2), m1=R(0, 2), f1=R(0, 13), k1=R(0, 2), hi=R(0, 3), ai=R(0, 2), port=B),
-       shards=dict(f0=list(range(14)), k0=[0], k1=[1], m1=[0], m0=[0, 2], ai=[0, 1]),
-       thorough_shards=dict(f0=list(range(14)), k0=[0, 2], m0=[0, 1, 2], m1=[0, 1, 2]),
+       sym=dict(m0=R(0, 2), f0=R(0, 15), k0=R(0, 2), m1=R(0, 2), f1=R(0, 15), k1=R(0, 2), hi=R(0, 3), ai=R(0, 2), port=B),
+       shards=dict(f0=list(range(16)), k0=[0], k1=[1], m1=[0], m0=[0, 2], ai=[0, 1]),
+       thorough_shards=dict(f0=list(range(16)), k0=[0, 2], m0=[0, 1, 2], m1=[0, 1, 2]),
        timeout=200, thorough_timeout=600,
        functions=[KH.SSHKnownHosts.load, KH.SSHKnownHosts._match, KH.SSHKnownHosts.match, KH._PlainHost.matches,
                   KH._HashedHost.matches, P.HostPatternList.build_pattern, P.WildcardHostPattern.matches, P.CIDRHostPattern.matches],
-       bounds='2 lines: marker x 14 host-field forms (exact, list, wildcard, negated, [host]:port, CIDR, negated CIDR, hashed, hashed with port, IP literal) x key (2 good + broken); '
+       bounds='2 lines: marker x 16 host-field forms (exact, list, wildcard, negated first / negated later element without wildcard characters, [host]:port, CIDR, negated CIDR, hashed, hashed with port, IP literal) x key (2 good + broken); '
               'query host in {h, g, IP literal, none} x address {none, 2 IPs} x port {default, 2222}'),
     Ob('options_tokenizer', options_tokenizer,
        sym=dict(n=R(0, 6), i0=R(0, 6), i1=R(0, 6), i2=R(0, 6), i3=R(0, 6), i4=R(0, 6), i5=R(0, 6)),
